@@ -168,7 +168,7 @@ func c02(c *Ctx) {
 		}
 		u := &unit{f: f, cases: cases, reg: reg, dir: "gen/c02p" + g.Label, refused: ad.Refused}
 		for _, p := range []string{"ts-server", "openapiv3"} {
-			res := c.TB.Run(p, req, plugin.RunOpt{})
+			res := lab.RunDecoy(c.TB, p, req, plugin.RunOpt{})
 			c.R.Eval(1)
 			if !res.OK() {
 				continue
